@@ -1,24 +1,16 @@
 package ledger
 
-import "fmt"
+import (
+	"fmt"
 
-type ErrInvalidQuery struct {
-	msg string
-}
+	"github.com/formancehq/ledger/internal/storage/common"
+)
 
-func (e ErrInvalidQuery) Error() string {
-	return e.msg
-}
-
-func (e ErrInvalidQuery) Is(err error) bool {
-	_, ok := err.(ErrInvalidQuery)
-	return ok
-}
+// ErrInvalidQuery is the invalid-query error of the storage layer (the one the API maps to a 400).
+type ErrInvalidQuery = common.ErrInvalidQuery
 
 func NewErrInvalidQuery(msg string, args ...any) ErrInvalidQuery {
-	return ErrInvalidQuery{
-		msg: fmt.Sprintf(msg, args...),
-	}
+	return common.NewErrInvalidQuery(msg, args...)
 }
 
 type ErrMissingFeature struct {
